@@ -9,8 +9,8 @@ Arguments N.div : simpl never. Arguments N.modulo : simpl never.
 Arguments N.sub : simpl never. Arguments N.ltb : simpl never. Arguments N.leb : simpl never.
 Ltac Zify.zify_post_hook ::= Z.div_mod_to_equations.
 
-Definition slot := list byte.
-Definition line := (N * list byte)%type.
+Notation slot := (list byte) (only parsing).
+Notation line := (N * list byte)%type (only parsing).
 
 Section Fmt.
 Variable p : nat.                       (* payload size *)
